@@ -45,6 +45,13 @@ Theorem C08_pool_get_is_fresh :
 Proof. exact pool_get_is_fresh. Qed.
 Print Assumptions C08_pool_get_is_fresh.
 
+Theorem C08_depth_ctx_never_left_behind :
+  forall PS ctx_done0 REC_END s0, obtainable fresh_p (psem no_defects PS ctx_done0 REC_END) OPutGet s0 ->
+  forall (h : hist pop pin),
+    p_depth (run (psem no_defects PS ctx_done0 REC_END) h s0) = 0 /\ p_ctx (run (psem no_defects PS ctx_done0 REC_END) h s0) = None.
+Proof. exact depth_ctx_never_left_behind. Qed.
+Print Assumptions C08_depth_ctx_never_left_behind.
+
 (* tokenizer *)
 Theorem C08_tok_no_carry_over :
   forall LEX tctx_done0 kw_of_dialect,
